@@ -10,7 +10,8 @@ DRAFTS = (3, 4, 6, 7)
 _CLS = None
 SHAPES = [None, True, False, 0, 1, -1, 2, 1.5, 1.0, 2 ** 1400, 1e308, "", "a", "^a", "integer", "any", "foo", [], [{}],
           [{}, {}], [True], ["a"], ["a", "b"], ["a", "a"], [1], ["integer", "string"], {}, {"a": {}}, {"a": True},
-          {"a": ["b"]}, {"a": "b"}, {"a": 1}, {"type": "integer"}]
+          {"a": ["b"]}, {"a": "b"}, {"a": 1}, {"type": "integer"}, [{"minimum": 1}, {"minimum": 1.0}], [[1], [1.0]], [{"a": 0}, {"a": -0.0}],
+          [{"divisibleBy": 2}, "null", {"divisibleBy": 2.0}], [1, 1.0], [True, 1]]
 
 
 def _cls():
